@@ -92,6 +92,14 @@ pub fn rerun(a: &Args, out: &mut Out) {
                 }
                 i = j - 1;
             }
+            "FieldNf" => {
+                let id = e["id"].as_str().unwrap_or("");
+                let k: i64 = e["k"].as_str().and_then(|x| x.parse().ok()).unwrap_or(0);
+                match crate::generated::field_table().iter().find(|f| f.id == id && f.probe.is_some()) {
+                    Some(f) => out.emit(crate::drv_fields::fieldnf_event(f, k)),
+                    None => out.emit(e.clone()),
+                }
+            }
             _ => out.emit(e.clone()), // not re-executable: kept as recorded
         }
         i += 1;
